@@ -14,7 +14,7 @@
 //        one per `d` attribute (paired in document order); geo = the input fits the fixed-point
 //        range of spec/SvgPath.tla (decided from the INPUT only)
 //   {"kind":"doc", id, mode, css, ok, err, wfin, wfout, ein:[ev], eout:[ev]}
-//        ev = {t:"s"|"e"|"x", ns, name, attrs:[{ns,name,val:[bytes],lc}], txt:[bytes]}
+//        ev = {t:"s"|"e"|"x", ns, name, attrs:[{ns,name,val:[bytes],lc,decls:[{name,val,lc}]}], txt:[bytes]}
 // usage: c05 <cases.ndjson> <trace.ndjson>     |    c05 -show [-inline] [-css] <file or ->
 package main
 
@@ -57,11 +57,86 @@ type Case struct {
 	File  string      `json:"file"`
 }
 
-type Attr struct {
-	NS   string    `json:"ns"`
+type Decl struct {
 	Name string    `json:"name"`
 	Val  lib.Bytes `json:"val"`
 	LC   string    `json:"lc"`
+}
+
+type Attr struct {
+	NS    string    `json:"ns"`
+	Name  string    `json:"name"`
+	Val   lib.Bytes `json:"val"`
+	LC    string    `json:"lc"`
+	Decls []Decl    `json:"decls"` // style attribute: its declarations (name lower-cased), else empty
+}
+
+// declsOf splits a style attribute value into declarations (CSS Style Attributes: a
+// declaration list; `;` and `:` inside strings or parentheses do not separate).
+func declsOf(v string) []Decl {
+	out := []Decl{}
+	depth := 0
+	var quote byte
+	start := 0
+	flush := func(end int) {
+		d := v[start:end]
+		colon := -1
+		dp := 0
+		var q byte
+		for i := 0; i < len(d); i++ {
+			c := d[i]
+			switch {
+			case q != 0:
+				if c == q {
+					q = 0
+				}
+			case c == '"' || c == '\'':
+				q = c
+			case c == '(':
+				dp++
+			case c == ')':
+				dp--
+			case c == ':' && dp == 0 && colon < 0:
+				colon = i
+			}
+		}
+		if colon < 0 {
+			if strings.TrimSpace(d) != "" {
+				out = append(out, Decl{Name: "?", Val: lib.Bytes(d), LC: lcShort([]byte(d))})
+			}
+			return
+		}
+		val := d[colon+1:]
+		out = append(out, Decl{Name: strings.ToLower(strings.TrimSpace(d[:colon])), Val: lib.Bytes(val), LC: lcShort([]byte(val))})
+	}
+	for i := 0; i < len(v); i++ {
+		c := v[i]
+		switch {
+		case quote != 0:
+			if c == quote {
+				quote = 0
+			}
+		case c == '"' || c == '\'':
+			quote = c
+		case c == '(':
+			depth++
+		case c == ')':
+			depth--
+		case c == ';' && depth == 0:
+			flush(i)
+			start = i + 1
+		}
+	}
+	flush(len(v))
+	return out
+}
+
+func mkAttr(ns, name, val string) Attr {
+	a := Attr{NS: ns, Name: name, Val: lib.Bytes(val), LC: lcShort([]byte(val)), Decls: []Decl{}}
+	if ns == "" && name == "style" {
+		a.Decls = declsOf(val)
+	}
+	return a
 }
 
 type Ev struct {
@@ -172,7 +247,10 @@ func projectXML(src []byte) (evs []Ev, ds [][]byte, wf bool, why string) {
 				}
 			}
 			for _, a := range t.Attr {
-				at := Attr{Name: a.Name.Local, Val: lib.Bytes(a.Value), LC: lcShort([]byte(a.Value))}
+				at := mkAttr("", a.Name.Local, a.Value)
+				if a.Name.Space != "" {
+					at.Decls = []Decl{}
+				}
 				switch {
 				case a.Name.Space == "" && a.Name.Local == "xmlns", a.Name.Space == "xmlns":
 					at.NS = "xmlns"
@@ -269,7 +347,10 @@ func projectHTML(src []byte) (evs []Ev, ds [][]byte, wf bool, why string) {
 				e.NS = n.Namespace
 			}
 			for _, a := range n.Attr {
-				at := Attr{Name: a.Key, Val: lib.Bytes(a.Val), LC: lcShort([]byte(a.Val))}
+				at := mkAttr("", a.Key, a.Val)
+				if a.Namespace != "" {
+					at.Decls = []Decl{}
+				}
 				switch {
 				case a.Namespace == "xmlns" || (a.Namespace == "" && a.Key == "xmlns"):
 					at.NS = "xmlns"
